@@ -394,11 +394,20 @@ class ArgumentParser:
                     namespace._passes[flag_name] = default_value
             parser.add_argument(*option["flags"], **kwargs)
 
+        # argparse cannot separate a multi-character option from a value
+        # attached to it (e.g. -isystem/usr/include, -includeconfig.h).
+        split_argv = []
+        for arg in argv + self.compiler.options:
+            for flag in ["-isystem", "-include"]:
+                value = arg[len(flag) :]
+                if arg.startswith(flag) and value and value[0] != "-":
+                    split_argv += [flag, value]
+                    break
+            else:
+                split_argv.append(arg)
+
         # Make a best-effort attempt to parse arguments.
-        args, unrecognized = parser.parse_known_args(
-            argv + self.compiler.options,
-            namespace,
-        )
+        args, unrecognized = parser.parse_known_args(split_argv, namespace)
         # Suppress warnings for -g and -c. They are not registered with the
         # parser because argparse would then reject any other option that
         # begins with them (e.g. -g3, -ggdb, -ccbin, -coverage).
